@@ -1016,6 +1016,9 @@ def run(ctx):
         "trajectory file names carry os.getpid(): the children use a fixed fake pid per process life so that histories are reproducible",
         "fsync / directory-entry durability below the syscall level is not modelled",
         "a crash before the first restart.toml was completely written is not a restart case (fresh start needed); only the model/tree correspondence is checked there",
+        "the model assumes every effect succeeds: os.rmdir on a non-empty directory (stale files of a crashed store, delete_old_all) is outside the theorems; the tie reports it when the real continuation dies",
+        "output.keep_traj_fnames is empty; one worker for the model-vs-tree comparison, two-worker histories are judged with the property predicates only",
+        "the order in which the trajectory files of a queued path are removed is a Python set order: the model takes it as input (theorems hold for every order)",
     ]
     try:
         need = {"zs-acc", "sh-acc", "wf-acc", "sh-rej"}
